@@ -18,7 +18,8 @@ func init() {
 			"(2) no lock-order cycle among the locks that the write path holds or acquires (WAL.mu, storage.Manager.mu and every lock acquired under them): a replica-serving goroutine must never hold a lock the write path needs while waiting for a lock the write path holds; each acquired-while-held edge on such a cycle is an obligation keyed by (from, to, function); " +
 			"(3) observer callbacks return nothing, so a replica cannot fail a write; " +
 			"(4) dead sessions are dropped: the heartbeat's timeout arm and a failed send mark the session disconnected, every marked session reaches unregisterReplicaSession, GetReplicaInfo filters on Connected, session ids are unique per stream (not derived from the request), and no blocking send runs under a session lock inside the heartbeat's sequential loop. " +
-			"Added after blind round 4: no method of the replication package calls, while holding a lock of its receiver, a method of the same receiver that takes it again (the broadcast loop holds Primary.mu inside wal.Append); the primary's gRPC server pings idle connections (keepalive Time and Timeout set).",
+			"Added after blind round 4: no method of the replication package calls, while holding a lock of its receiver, a method of the same receiver that takes it again (the broadcast loop holds Primary.mu inside wal.Append); the primary's gRPC server pings idle connections (keepalive Time and Timeout set). " +
+			"Added after blind round 5: every write to the content of Primary.sessions holds Primary.mu exclusively.",
 		NotDecided: "latencies, time bounds, 'eventually', TCP-level stalls (need a fault-injecting transport).",
 		Rules:      []func(*Ctx, *Reporter){ruleNoBlockingUnderWAL, ruleWritePathLockCycles, ruleObserversReturnNothing, ruleDeadSessions, ruleReplNoReentrancy, ruleKeepalivePings, ruleSessionsMapWriters},
 	})
